@@ -80,7 +80,14 @@ func (v *Vue) RenderNodes(w io.Writer, nodes []*html.Node, data any) error {
 		Processors: v.nodeProcessors,
 	})
 
-	return v.renderNodesWithContext(ctx, w, nodes)
+	// the caller's nodes carry no v-once ids: a copy is stamped, as the file based entry points stamp theirs
+	stamped := make([]*html.Node, 0, len(nodes))
+	for _, n := range nodes {
+		stamped = append(stamped, helpers.DeepCloneNode(n))
+	}
+	assignSeenAttrs("", stamped)
+
+	return v.renderNodesWithContext(ctx, w, stamped)
 }
 
 // renderNodesWithContext is an internal method that evaluates and renders nodes with a pre-configured context.
